@@ -23,6 +23,7 @@ import GunYu.Proofs.SenderWire
 import GunYu.Proofs.TargetSeq
 import GunYu.Proofs.Crash
 import GunYu.Proofs.TxnShape
+import GunYu.Proofs.ResumeDb
 
 namespace GunYu.Props.C02
 open GunYu GunYu.Sender GunYu.Target
@@ -337,6 +338,42 @@ theorem txn_crash_repeats_nothing (c : SCfg) (hc : c.txnMode = true) (hres : c.r
         have := congrArg List.length hstrip
         simp at this
         omega
+
+/-- **The next start resumes in the database the position was written in.** Let a
+    target that held no checkpoint die after ANY number `k` of the requests of ANY
+    run, and let `<rid>_offset o` be the last checkpoint write it executed
+    (`E = E1 ++ [cp o] ++ E2`). Then `o` is stored in the database `d` the
+    connection had selected at that write — i.e. after every forwarded SELECT that
+    precedes it, and by `nothing_skipped` no SELECT that follows it is covered by
+    `o` — and every other database holds a strictly smaller offset: the largest
+    offset (what `GetCheckpoint` picks) identifies exactly that database. -/
+theorem crash_resume_db (c : SCfg) (evs : List Ev) (hm : SMono initS.lastOffset evs)
+    (t : TState) (hfresh : t.cps = []) (k : Nat)
+    (E : List Req) (hE : E <+: bodies (run c initS evs).2)
+    (hsame : SameData (applyLog t ((run c initS evs).2.flatten.take k)) (E.foldl execReq t))
+    (E1 E2 : List Req) (o : Int) (hsplit : E = E1 ++ Req.cpOffset o :: E2)
+    (hlast : cpOffsetsB E2 = []) :
+    let crashed := applyLog t ((run c initS evs).2.flatten.take k)
+    let d := (E1.foldl execReq t).cur
+    (getCp crashed.cps d).offset = some o ∧
+    ∀ d', d' ≠ d → ∀ o', (getCp crashed.cps d').offset = some o' → o' < o := by
+  simp only
+  rw [hsame.2]
+  obtain ⟨R, hER⟩ := hE
+  have hok := run_ok c initS evs (qok_nil _) hm
+  have hkeys : keysB E ++ keysB R = keys (run c initS evs).2 := by
+    rw [← keysB_append, hER, keys_bodies _ (run_wf c initS evs)]
+  have hsortedE : (keysB E).Pairwise (· ≤ ·) := by
+    have := hok.2.1.1
+    rw [← hkeys] at this
+    exact (List.pairwise_append.mp this).1
+  have hlow : ∀ k ∈ keysB E, 2 * (-1 : Int) ≤ k := by
+    intro k hk
+    have := (hok.2.1.2 k (by rw [← hkeys]; exact List.mem_append_left _ hk)).1
+    simp [lowkey, initS] at this
+    omega
+  subst hsplit
+  exact resume_db_unique E1 E2 o t hfresh hsortedE (-1) hlow hlast
 
 /-- the checkpoint offset is written into the database the connection is in -/
 theorem cp_lands_in_current_db (t : TState) (o : Int) :
